@@ -31,6 +31,7 @@ def run(rep, tier):
     const_generics(rep, F)
     tolerance_consistency(rep, F)
     rdp_metric(rep, F)
+    recompute(rep, F)
 
 
 ENTRIES = [
@@ -313,3 +314,59 @@ def rdp_metric(rep, F):
         rep.ok("R9.6", "split:[..=k]")
     else:
         rep.bad("R9.6", "split", "the recursive split is %s; expected compute_rdp(&v[..=k]) followed by compute_rdp(&v[k..])" % [r[:120] for r in rec][:1], where=fn.loc())
+
+
+def recompute(rep, F):
+    """R9.8: after a removal both neighbours are re-scored: recompute_triangles walks the two candidate triangles (ll,left,right) and
+    (left,right,rr); an out-of-range candidate is skipped, the other one still handled (the function returns only when the walk is exhausted);
+    each in-range candidate is pushed with its own (left, current, right) and the area of exactly that triangle."""
+    from .c01 import opaque, calls_of
+    from ..symex import bare
+    rep.rule("R9.8", "recompute_triangles: candidates [(ll,left,right),(left,right,rr)]; returns only after both were visited; every in-range candidate is pushed as VScore{left: a, current: c, right: b, area(orig[a],orig[c],orig[b])}")
+    try:
+        fn = F.one(r"simplify_vw::recompute_triangles$", crates=("geo",))
+        ps = opaque(F, loop_bound=3).run(fn)
+    except (KeyError, Unanalysable) as e:
+        rep.bad("R9.8", "anchor", str(e))
+        return
+    rets = [p for p in ps if p.kind == "ret"]
+    if not rets:
+        rep.bad("R9.8", "shape", "no returning path", where=fn.loc())
+        return
+    src = None
+    for p in rets:
+        atoms = [(bare(t), v) for t, v in p.pc]
+        if not atoms or not (atoms[-1][0].startswith("discr(next(") and atoms[-1][1] == 0):
+            rep.bad("R9.8", "early-return", "recompute_triangles returns inside the walk over the two neighbour triangles (last decision: %s): when one candidate is out of range the "
+                    "other neighbour is never re-scored and keeps a stale heap entry" % (atoms[-1:] or "none"), where=fn.loc())
+            return
+        m = re.match(r"^discr\(next\(into_iter\((\[.*\])\)\)\)$", atoms[0][0])
+        if m:
+            src = m.group(1)
+        n_in = 0
+        for i, (a, v) in enumerate(atoms):
+            pass
+        pushes = [bare(c[2][1]) for c in calls_of(p) if c[1].endswith("::push")]
+        for pu in pushes:
+            m = re.match(r"^VScore::VScore\(cast\(IntToInt, (.*)\.0, usize\), cast\(IntToInt, (.*)\.1, usize\), cast\(IntToInt, (.*)\.2, usize\), (.*), False\)$", pu)
+            ok_fields = False
+            if m and m.group(1) == m.group(2) == m.group(3):
+                it = re.escape(m.group(1))
+                area = m.group(4)
+                tri = r"unsigned_area\(new\(a2\.0\[cast\(IntToInt, %s\.0, usize\)\], a2\.0\[cast\(IntToInt, %s\.1, usize\)\], a2\.0\[cast\(IntToInt, %s\.2, usize\)\]\)\)" % (it, it, it)
+                ok_fields = re.match(r"^(%s|neg\(a9\))$" % tri, area) is not None
+            if not ok_fields:
+                # field order of VScore in the aggregate: (left, current, right, area, intersector) as declared
+                rep.bad("R9.8", "push", "a re-scored triangle is pushed as %s: expected left/current/right = the candidate's own three indices and the area of that triangle (or -eps for the "
+                        "intersector demotion)" % pu[:200], where=fn.loc())
+                return
+    if src != "[(a4, a5, a6), (a5, a6, a7)]":
+        rep.bad("R9.8", "candidates", "the candidate triangles are %s, expected [(ll, left, right), (left, right, rr)]" % src, where=fn.loc())
+        return
+    # the declared field order, so that the aggregate positions above mean what they say
+    adt = F.adts.get("geo::algorithm::simplify_vw::VScore")
+    names = [f["name"] for f in adt["variants"][0]["fields"]] if adt else []
+    if names != ["left", "current", "right", "area", "intersector"]:
+        rep.bad("R9.8", "vscore-fields", "VScore fields are %s" % names)
+        return
+    rep.ok("R9.8", "recompute_triangles[%d paths]" % len(rets))
